@@ -28,27 +28,49 @@ func isParseString(cal *ssa.Function) bool {
 // validatingParse: call parses a filter string and reports syntax errors: ParseString itself, or a module wrapper
 // whose every nil-error return is dominated by the nil-error edge of ParseString on its own string parameter.
 func validatingParse(c *Ctx, call *ssa.Call) (str ssa.Value, ok bool) {
+	return validatingParseD(c, call, 0)
+}
+
+// validatingParseD: call is ParseString, or a module wrapper (possibly nested: Validate → Parse → ParseString) whose
+// nil error implies that the wrapped parse of its own string parameter succeeded: every return either hands on the
+// inner call's error or returns a constant nil under the inner call's nil-error edge.
+func validatingParseD(c *Ctx, call *ssa.Call, depth int) (str ssa.Value, ok bool) {
 	cal := call.Call.StaticCallee()
 	if isParseString(cal) {
 		return call.Call.Args[2], true // (receiver, filename, s, options...)
 	}
-	if cal == nil || !c.inModule(cal) || len(cal.Blocks) == 0 {
+	if cal == nil || depth > 3 || !c.inModule(cal) || len(cal.Blocks) == 0 {
+		return nil, false
+	}
+	res := cal.Signature.Results()
+	if res.Len() == 0 || !isErrorType(res.At(res.Len()-1).Type()) {
 		return nil, false
 	}
 	var inner *ssa.Call
-	for _, ci := range callsIn(cal, false, func(k *ssa.Function, _ ssa.CallInstruction) bool { return isParseString(k) }) {
-		inner = ci.(*ssa.Call)
+	var innerStr ssa.Value
+	for _, ci := range callsIn(cal, false, func(k *ssa.Function, _ ssa.CallInstruction) bool { return true }) {
+		ic, isCall := ci.(*ssa.Call)
+		if !isCall {
+			continue
+		}
+		if s, ok := validatingParseD(c, ic, depth+1); ok {
+			inner, innerStr = ic, s
+		}
 	}
 	if inner == nil {
 		return nil, false
 	}
-	p, isP := resolve(inner.Call.Args[2]).(*ssa.Parameter)
+	p, isP := resolve(innerStr).(*ssa.Parameter)
 	if !isP {
 		return nil, false
 	}
 	for _, ret := range returnsOf(cal) {
-		if !returnsNilError(ret) {
-			continue
+		ev := retResult(ret, res.Len()-1)
+		if !isNilConst(ev) {
+			if dependsOnCall(ev, inner) {
+				continue // the inner verdict is handed on
+			}
+			return nil, false // some other error value: nil does not imply the parse succeeded
 		}
 		if !condHas(edgeConds(ret.Block()), false, func(v ssa.Value) bool {
 			bo, ok := v.(*ssa.BinOp)
@@ -77,11 +99,15 @@ func parseOK(c *Ctx, cs []Cond) (*ssa.Call, bool) {
 		if !((bo.Op == token.NEQ && !cd.Pol) || (bo.Op == token.EQL && cd.Pol)) {
 			continue
 		}
+		var call *ssa.Call
 		if ex, ok := bo.X.(*ssa.Extract); ok {
-			if call, ok := ex.Tuple.(*ssa.Call); ok {
-				if _, isV := validatingParse(c, call); isV {
-					return call, true
-				}
+			call, _ = ex.Tuple.(*ssa.Call)
+		} else if cc, ok := bo.X.(*ssa.Call); ok {
+			call = cc // a validator that returns only the error
+		}
+		if call != nil {
+			if _, isV := validatingParse(c, call); isV {
+				return call, true
 			}
 		}
 	}
@@ -718,14 +744,54 @@ func ruleC07_6(c *Ctx, r *Rep) {
 	}
 	if fn := r.Anchor("C07.6", "(*filter.Term).Evaluate"); fn != nil {
 		ok := false
+		// form (a): result != e.Not
 		for _, b := range fn.Blocks {
 			for _, in := range b.Instrs {
-				if bo, isB := in.(*ssa.BinOp); isB && bo.Op == token.NEQ && (sources(bo.Y)["field:Not"] || sources(bo.X)["field:Not"]) && (sources(bo.X)["call:Evaluate"] || sources(bo.Y)["call:Evaluate"]) {
+				if bo, isB := in.(*ssa.BinOp); isB && (bo.Op == token.NEQ || bo.Op == token.XOR) && (sources(bo.Y)["field:Not"] || sources(bo.X)["field:Not"]) && (sources(bo.X)["call:Evaluate"] || sources(bo.Y)["call:Evaluate"]) {
 					for _, ret := range returnsOf(fn) {
 						if dependsOnValue(retResult(ret, 0), bo) {
 							ok = true
 						}
 					}
+				}
+			}
+		}
+		// form (b): if e.Not { result = !result } — the returned value is the negation of the evaluated result
+		// exactly on the Not side and the evaluated result itself on the other
+		if !ok {
+			isNot := func(cs []Cond, pol bool) bool {
+				for _, cd := range cs {
+					nc := normCond(cd.V, cd.Pol)
+					if nc.Pol == pol && sources(nc.V)["field:Not"] {
+						if _, isCmp := nc.V.(*ssa.BinOp); !isCmp {
+							return true
+						}
+					}
+				}
+				return false
+			}
+			for _, ret := range returnsOf(fn) {
+				neg, plain, bad := false, false, false
+				for _, alt := range valueAlternatives(retResult(ret, 0)) {
+					v := alt.v
+					if u, isU := v.(*ssa.UnOp); isU && u.Op == token.NOT && sources(u.X)["call:Evaluate"] {
+						if isNot(alt.conds, true) && !isNot(alt.conds, false) {
+							neg = true
+						} else {
+							bad = true
+						}
+						continue
+					}
+					if sources(v)["call:Evaluate"] {
+						if isNot(alt.conds, false) {
+							plain = true
+						} else if isNot(alt.conds, true) {
+							bad = true
+						}
+					}
+				}
+				if neg && plain && !bad {
+					ok = true
 				}
 			}
 		}
@@ -806,6 +872,56 @@ func ruleC07_6(c *Ctx, r *Rep) {
 		}
 		r.Check("C07.6", "C07.6:Condition", fn.Pos(), okA && okO, "first term, then AND-chain only if true / OR-chain only if false", "Condition.Evaluate does not combine the first term with the AND chain (when true) / OR chain (when false)")
 	}
+}
+
+type valAlt struct {
+	v     ssa.Value
+	conds []Cond
+}
+
+// valueAlternatives: the values v can take with the conditions under which it takes each — edges of a phi (with
+// the branch that leads to it) or the stores into a local cell that v loads.
+func valueAlternatives(v ssa.Value) []valAlt {
+	var out []valAlt
+	seen := map[ssa.Value]bool{}
+	var walk func(v ssa.Value, extra []Cond, d int)
+	walk = func(v ssa.Value, extra []Cond, d int) {
+		if seen[v] || d > 8 {
+			return
+		}
+		seen[v] = true
+		switch x := v.(type) {
+		case *ssa.Phi:
+			for i, e := range x.Edges {
+				pred := x.Block().Preds[i]
+				cs := append(append([]Cond{}, extra...), edgeConds(pred)...)
+				if len(pred.Instrs) > 0 {
+					if iff, ok := pred.Instrs[len(pred.Instrs)-1].(*ssa.If); ok && len(pred.Succs) == 2 && pred.Succs[0] != pred.Succs[1] {
+						cs = append(cs, normCond(iff.Cond, pred.Succs[0] == x.Block()))
+					}
+				}
+				if _, isPhi := e.(*ssa.Phi); isPhi {
+					walk(e, cs, d+1)
+				} else {
+					out = append(out, valAlt{e, cs})
+				}
+			}
+			return
+		case *ssa.UnOp:
+			if al, ok := x.X.(*ssa.Alloc); ok && x.Op == token.MUL {
+				sts := allocStores(al)
+				if len(sts) > 0 {
+					for _, st := range sts {
+						out = append(out, valAlt{st.Val, append(append([]Cond{}, extra...), edgeConds(st.Block())...)})
+					}
+					return
+				}
+			}
+		}
+		out = append(out, valAlt{v, extra})
+	}
+	walk(v, nil, 0)
+	return out
 }
 
 // ---------------------------------------------------------------------------
@@ -897,16 +1013,32 @@ func ruleC08_2(c *Ctx, r *Rep) {
 		for _, b := range fn.Blocks {
 			for _, in := range b.Instrs {
 				ci, ok := in.(ssa.CallInstruction)
-				if !ok || !ci.Common().IsInvoke() || ci.Common().Method.Name() != "WriteString" {
+				if !ok {
 					continue
 				}
-				arg := ci.Common().Args[0]
-				src := sources(arg)
-				for _, leaf := range []struct{ field, san string }{{"field:Name", "call:formatAttrName"}, {"field:Value", "call:Quote"}} {
-					if src[leaf.field] {
-						n++
-						r.Check("C08.2", fmt.Sprintf("C08.2:%s.%s@AsFilter", gt.Name, strings.TrimPrefix(leaf.field, "field:")), ci.Pos(), src[leaf.san], "",
-							"the printer writes "+gt.Name+"."+strings.TrimPrefix(leaf.field, "field:")+" without "+strings.TrimPrefix(leaf.san, "call:")+": names/values containing quotes, spaces or operators print as text that does not parse back")
+				// every consumer of the raw text — the writer's WriteString or a private write helper — counts as
+				// the sink; the sanitisers themselves are where the raw field is supposed to go
+				if cal := ci.Common().StaticCallee(); cal != nil && (cal.Name() == "formatAttrName" || cal.Name() == "Quote" && fnPkgPath(cal) == "strconv") {
+					continue
+				}
+				if bi, isB := ci.Common().Value.(*ssa.Builtin); isB && bi.Name() == "len" {
+					continue
+				}
+				args := ci.Common().Args
+				if !ci.Common().IsInvoke() && ci.Common().Signature().Recv() != nil && len(args) > 0 {
+					args = args[1:]
+				}
+				for _, arg := range args {
+					if bt, isBasic := arg.Type().Underlying().(*types.Basic); !isBasic || bt.Info()&types.IsString == 0 {
+						continue
+					}
+					src := sources(arg)
+					for _, leaf := range []struct{ field, san string }{{"field:Name", "call:formatAttrName"}, {"field:Value", "call:Quote"}} {
+						if src[leaf.field] {
+							n++
+							r.Check("C08.2", fmt.Sprintf("C08.2:%s.%s@AsFilter", gt.Name, strings.TrimPrefix(leaf.field, "field:")), ci.Pos(), src[leaf.san], "",
+								"the printer writes "+gt.Name+"."+strings.TrimPrefix(leaf.field, "field:")+" without "+strings.TrimPrefix(leaf.san, "call:")+": names/values containing quotes, spaces or operators print as text that does not parse back")
+						}
 					}
 				}
 			}
